@@ -855,3 +855,19 @@ def _(eng, ci, a, sp):
 @S('PathBuf::into_string', 'PathBuf::as_mut_os_string')
 def _(eng, ci, a, sp):
     return a[0]
+
+
+@S('ConstCStr::from_str_with_nul_unchecked')
+def _(eng, ci, a, sp):
+    """zombiezen_const_cstr::const_cstr!("..."): a &'static str with a trailing NUL"""
+    return Struct('ConstCStr', [deref_all(a[0])])
+
+
+@S('ConstCStr::as_cstr')
+def _(eng, ci, a, sp):
+    v = deref_all(a[0])
+    b = deref_all(v.f[0])
+    items = list(b.items)
+    if items and items[-1] == 0:
+        items = items[:-1]
+    return Bytes(items, 'CStr')
